@@ -6,6 +6,7 @@ import (
 	"path/filepath"
 	"strconv"
 	"strings"
+	"sync/atomic"
 
 	"github.com/gorilla/mux"
 	crest "github.com/openebs/jiva/controller/rest"
@@ -143,6 +144,11 @@ func NewCtlTarget(state string, rf int, r *vk.Rand, res *vk.Result, ipA, ipB int
 	if !ok || w.Dead {
 		w.Close()
 		return nil, false
+	}
+	// in every other established state one attached replica's process ends while it serves the volume-delete request
+	// (it answered the GET before): the controller has to report that replica's deletion as failed
+	if fs, _ := w.Attached(); len(fs) > 0 && r.Intn(2) == 0 {
+		atomic.StoreInt32(&fs[r.Intn(len(fs))].DropDelete, 1)
 	}
 	router := crest.NewRouter(crest.NewServer(w.C))
 	t := &Target{Name: "controller", Router: router, Liveness: "/v1/replicas",
